@@ -32,7 +32,7 @@ ASSUMPTIONS = [
 REQUIRED = ["fmt:ttml", "fmt:scc", "fmt:stl", "fmt:srt", "fmt:vtt", "kind:valid", "kind:mutated", "kind:corpus", "reader:returned-doc",
             "reader:documented-failure", "stage:isd", "stage:srt", "stage:vtt", "stage:imsc", "stage:lcd", "stage:post-lcd-writers"]
 SHARD_TIMEOUT = {"quick": 900, "thorough": 7200}
-N = {"quick": 110, "thorough": 19000}
+N = {"quick": 110, "thorough": 6000}
 SRC = os.path.join(core.REPO, "src/test/resources")
 MAX_INPUT = 16 * 1024
 ALLOWED_READER = (et.ParseError, ValueError, struct.error)
